@@ -29,5 +29,8 @@ CONFIG = dict(
 
 
 def native_replay(v, path):
+    # fixed scenario (two real coroutines, syscall-state yield then plain suspend): confirms, never overrules
+    if not v["obligation"].startswith("C09."):
+        return None
     rc, out = native.run_test("C09", "native/c09_replay.rs", "core/src/coroutine/korosensei.rs", "c09_native_replay")
-    return native.verdict(rc, out)
+    return native.verdict(rc, out, dict(decisive=False, scenario="fixed: c09_native_replay"))
